@@ -37,13 +37,18 @@ package generic
 // ---- C13: failure strings in force, stop-on-failed -------------------------------------------------
 
 //@ func NewOperation [C13 C19]
-//@   modifies alloc()
+//@   modifies alloc(), optlog
 //@   ensures #fresh result.1 == nil ==> fresh(result.0)
 //@   ensures #nil-on-error result.1 != nil ==> result.0 == nil
-//@   loop 1 invariant -1 <= rangeindex && rangeindex < len(options)
+//@   ensures #error-is-not-ignored-sentinel result.1 != nil ==> !isErr(result.1, util.ErrIgnoredOption)
+//@   ensures #every-option-applied-in-order result.1 == nil ==> optlog == old(optlog) ++ applied(options, box("*generic.OperationOptions", result.0), len(options))
+//@   ensures #defaults result.1 == nil && len(options) == 0 ==> !result.0.StopOnFailed && len(result.0.FailedWhenContains) == 0
+//@   loop 1 invariant -1 <= rangeindex && rangeindex < len(options) && isnew(o) && o != nil
+//@   loop 1 invariant optlog == old(optlog) ++ applied(options, box("*generic.OperationOptions", o), rangeindex + 1)
+//@   loop 1 invariant rangeindex == -1 ==> !o.StopOnFailed && len(o.FailedWhenContains) == 0
 
 //@ func (*Driver).sendCommand [C13]
-//@   modifies sent, driverOpts.FailedWhenContains, alloc()
+//@   modifies sent, driverOpts.FailedWhenContains, alloc(), optlog
 //@   ensures #one-exchange sent == old(sent) ++ strs(command)
 //@   ensures #nil-on-error result.1 != nil ==> result.0 == nil
 //@   ensures #precedence driverOpts.FailedWhenContains == (len(old(driverOpts.FailedWhenContains)) == 0 ? d.FailedWhenContains : old(driverOpts.FailedWhenContains))
@@ -52,14 +57,14 @@ package generic
 //@   ensures #contains-implies-failed result.1 == nil && validFWC(result.0.FailedWhenContains) && containsAnyS(result.0.Result, result.0.FailedWhenContains) ==> result.0.Failed != nil
 
 //@ func (*Driver).SendCommand [C13]
-//@   modifies sent, alloc()
+//@   modifies sent, alloc(), optlog
 //@   ensures #one-exchange result.1 == nil ==> sent == old(sent) ++ strs(command)
 //@   ensures #nil-on-error result.1 != nil ==> result.0 == nil
 //@   ensures #failed-implies-contains result.1 == nil && result.0.Failed != nil ==> containsAnyS(result.0.Result, result.0.FailedWhenContains)
 //@   ensures #contains-implies-failed result.1 == nil && validFWC(result.0.FailedWhenContains) && containsAnyS(result.0.Result, result.0.FailedWhenContains) ==> result.0.Failed != nil
 
 //@ func (*Driver).SendCommands [C13]
-//@   modifies sent, alloc()
+//@   modifies sent, alloc(), optlog
 //@   ensures #empty-list len(commands) == 0 ==> isErr(result.1, util.ErrNoOp) && sent == old(sent)
 //@   ensures #nil-on-error result.1 != nil ==> result.0 == nil
 //@   ensures #at-least-one result.1 == nil ==> 1 <= len(result.0.Responses) && len(result.0.Responses) <= len(commands)
